@@ -446,7 +446,7 @@ void SampleDREAM(int num_burnup, int num_collect,
             size_t jindex = (size_t) (get_random01() * unitlength);
             size_t kindex = (size_t) (get_random01() * unitlength);
             if (jindex >= num_chains) jindex = num_chains - 1; // this is needed in case get_random01() returns 1
-            if (kindex >= num_chains) jindex = num_chains - 1;
+            if (kindex >= num_chains) kindex = num_chains - 1;
 
             state.getIJKdelta(i, jindex, kindex, differential_update(), propose); // propose = s_i + w ( s_k - s_j)
             independent_update(propose); // propose += correction
